@@ -2,6 +2,7 @@
 # run_refactor.sh <diff>: apply a behaviour-preserving edit, run all checks, restore. Any VIOLATION is a false alarm.
 P=$1
 cd /verif
+export VERIF_EVIDENCE_SCRATCH=1   # runs against a patched /repo never touch evidence/
 git -C /repo apply "$P" || { echo "patch does not apply"; exit 2; }
 for p in C01 C02 C03 C04 C05 C06 C07 C08 C09 C10 C11 C12 C13 C14 C15 C16 C17 C18 C19 C20; do
   out=$(bin/check $p 2>&1 | grep -E "^(OK|VIOLATION|UNDECIDED)" | tail -1 | cut -c1-220)
